@@ -801,6 +801,16 @@ WITNESS = {"kind": "shoot", "intf": [1, 3, 4], "sc": "L", "maxlength": 100, "all
            "draws": ["0", "1/2"], "kicks": [], "streams": [[0], [2] * 9 + [5]], "class": "L11_witness"}
 
 
+# the Coq witness of C09_wire_fencing_weight_on_cap_refuted, replayed on the implementation in every run
+ZW_WITNESS = {"kind": "wf", "intf": [1, 2, 5], "sc": "L", "move": "wf", "cap": 3, "njumps": 1, "maxlength": 20,
+              "old": {"orders": [0, 2, 0], "revs": [False] * 3, "maxlen": 20, "t0": 0, "ld": False},
+              "draws": ["0", "0"], "kicks": [], "streams": [[3, 1], [4], [0], [6]], "class": "zero_weight_witness"}
+
+KNOWN_ZERO_WEIGHT = ("accepted wire-fencing path with wire-fencing weight 0: it contains a frame exactly on interface_cap, reached by a "
+                     "jump from below lambda_i (add_to_path treats o == cap as inside, wirefence_weight_and_pick as outside); "
+                     "witness interfaces (1,2,5), cap 3, accepted path 0 1 3 2 4 6 (theorem C09_wire_fencing_weight_on_cap_refuted)")
+
+
 def detect_variant():
     """Which add_to_path does the tree exhibit?  True = repaired rule."""
     res = run_impl(WITNESS)
@@ -852,9 +862,14 @@ def evaluate(ctx, cases, runner, fx, scratch):
         ctx.dist(f"{kind}:{res['status']}")
         if info:
             ctx.dist(f"oracle:{info}")
-        if info == "known_zero_weight_on_cap":
-            ctx.known("accepted wire-fencing path with zero weight (a frame lies exactly on the cap and the order parameter jumps over [lambda_i, cap))")
         payload = {"case": case, "impl": io, "model": mo, "request": req, "variant_fx": fx}
+        if info == "known_zero_weight_on_cap":
+            # reported as a known finding only while known_findings.json lists it
+            if any("property=C09" in k and "interface_cap" in k for k in common.load_findings().get("known", [])):
+                ctx.known(KNOWN_ZERO_WEIGHT)
+            elif stats.get("cap_viol", 0) < 2:
+                stats["cap_viol"] = stats.get("cap_viol", 0) + 1
+                ctx.violation("C09 statement fails on the implementation: " + KNOWN_ZERO_WEIGHT, payload, True)
         if not res["old_same"]:
             stats["untouched_fail"] += 1
             if stats["untouched_fail"] <= 3:
@@ -1034,9 +1049,13 @@ def check_zero_swap(ctx):
 
 def coqchk_stage(ctx):
     """Thorough tier: independent re-check of the compiled closure of theorems/C09.vo with coqchk."""
-    with common.build_lock():
-        rc, out, err = common.sh(["timeout", "900", "coqchk", "-silent", "-o", "-Q", ".", "Inf", "Inf.theorems.C09"],
-                                 cwd=common.COQ, timeout=1000)
+    cmd = ["timeout", "900", "coqchk", "-silent", "-o", "-Q", ".", "Inf", "Inf.theorems.C09"]
+    # read-only on the .vo files: first without the build lock (other checks may be building);
+    # if a concurrent rebuild disturbed it, once more under the lock
+    rc, out, err = common.sh(cmd, cwd=common.COQ, timeout=1000)
+    if rc != 0:
+        with common.build_lock():
+            rc, out, err = common.sh(cmd, cwd=common.COQ, timeout=1000)
     txt = out + err
     import re
     m = re.search(r"\* Axioms:\s*(.*?)\n\s*\n", txt, re.S)
@@ -1069,7 +1088,7 @@ def run(ctx):
         fx, wres = detect_variant()
         ctx.cov["add_to_path_variant"] = "repaired (and not success)" if fx else "current (crossing frame == maxlen-th frame reported as failure)"
 
-        cases = [WITNESS]
+        cases = [WITNESS, ZW_WITNESS]
         cases += gen_shoot_misc(ctx)
         cases += gen_shoot_grid(ctx, 14000 if quick else 170000)
         cases += gen_shoot_allolds(ctx, 1 if quick else 10)
@@ -1159,7 +1178,9 @@ def replay(doc):
     if case["kind"] == "shoot":
         err, _ = oracle_shoot(case, res)
     elif case["kind"] == "wf":
-        err, _ = oracle_wf(case, res)
+        err, info = oracle_wf(case, res)
+        if info == "known_zero_weight_on_cap":
+            print("KNOWN-FINDING: property=C09", KNOWN_ZERO_WEIGHT)
     print("property oracle:", err or "holds on this input")
     if not res["old_same"]:
         print("old path object was modified")
